@@ -139,7 +139,7 @@ def run_case(case, ctx):
         cmp_cols = inside
         edge = ~(inside | outside)
         for j in np.flatnonzero(edge):
-            col_ok = np.all((np.abs(got[:, j] - exp[:, j]) <= tol) | excl[:, j]) or np.all(got[:, j] == 0)
+            col_ok = np.all((np.abs(got[:, j] - exp[:, j]) <= tol[:, j]) | excl[:, j]) or np.all(got[:, j] == 0)
             if not col_ok:
                 obs.fail('boundary_column', f'column {j}')
                 break
@@ -152,7 +152,7 @@ def run_case(case, ctx):
     if np.any(bad):
         i, j = map(int, np.argwhere(bad)[0])
         fl = '+'.join(flags) or 'plain'
-        obs.fail(f'value:{fl}', f'pixel ({i},{j}) got {got[i, j]!r} expected {exp[i, j]!r} tol {tol:.3g}; '
+        obs.fail(f'value:{fl}', f'pixel ({i},{j}) got {got[i, j]!r} expected {exp[i, j]!r} tol {float(tol[i, j]):.3g}; '
                  f'{int(bad.sum())} of {bad.size} pixels; path={sg["path"]["kind"]} t={sg["t"]["kind"]} f={sg["f"]["kind"]} bp={sg["bp"]["kind"]}')
     if not np.array_equal(fr.data, got):
         obs.fail('frame_data_not_signal', '')
